@@ -43,6 +43,9 @@ type Cfg struct {
 	// an integer multiplication are small non-negative literals.
 	SmallNums bool
 
+	// CalmTry: no try statement that diverges on every path (used where the check depends on static types)
+	CalmTry bool
+
 	Off map[string]bool // gates: feature names switched off
 }
 
